@@ -67,7 +67,7 @@ func manyFilesFamily(seed int64, quick bool) []c12item {
 				return s
 			}
 			h := &hb{}
-			h.mk("d").mk("empty").at("d", name(0), 3)
+			h.mk("d").mk("empty").file("d", name(0), 3)
 			for i := 1; i < n; i++ {
 				switch x := rng.Intn(20); {
 				case x == 0 && len(name(i)) < 200:
